@@ -223,6 +223,9 @@ func runHistory(comp Component, idx int, h []string) (res histResult) {
 			}
 		}
 		res.out = append(res.out, o)
+		if ks, ok := r.(KeyScribbler); ok {
+			ks.ScribbleKeys()
+		}
 		for _, v := range r.Violations() {
 			v.History = idx
 			v.Line = i
@@ -445,6 +448,29 @@ func sortedHexList(l [][]byte) string {
 	sort.Slice(c, func(i, j int) bool { return string(c[i]) < string(c[j]) })
 	return hexList(c)
 }
+
+// keyPen: callers of the library may reuse the buffers they pass as KEYS. Every key slice handed to the implementation during
+// an operation is overwritten right after the operation (and its dump) has finished, so an implementation that keeps a
+// reference to the caller's key memory instead of copying it misbehaves at the next operation.
+type keyPen struct{ prev [][]byte }
+
+func (p *keyPen) k(b []byte) []byte {
+	p.prev = append(p.prev, b)
+	return b
+}
+
+// ScribbleKeys is called by runHistory after every operation
+func (p *keyPen) ScribbleKeys() {
+	for _, b := range p.prev {
+		for i := range b {
+			b[i] ^= 0xa5
+		}
+	}
+	p.prev = nil
+}
+
+// KeyScribbler is implemented by runners that embed keyPen
+type KeyScribbler interface{ ScribbleKeys() }
 
 type violBuf struct{ v []Violation }
 
